@@ -281,7 +281,10 @@ class Part(object):
                 # If there is only a single clef
                 staff_clefs = np.array([staff_clefs[0, :], staff_clefs[0, :]])
 
-            if staff_clefs[0, 0] > self.first_point.t:
+            if (
+                self.first_point is not None
+                and staff_clefs[0, 0] > self.first_point.t
+            ):
                 staff_clefs = np.vstack(
                     ((self.first_point.t, *staff_clefs[0, 1:]), staff_clefs)
                 )
